@@ -79,8 +79,8 @@ def run(tier, seed):
             nl, nh = 6, 5        # beyond one 100-packet batch
         fmt = rng.choice([0, 2])
         # calibration runs: a CDW leads the data of every page: members of the CDW-extended word-level grammar (Spec/GrammarItsCdw.v,
-        # theorem C01_its_tier_calibration); the stave tier has no CDW production, there their silence is observed only
-        calib = s % 7 == 3
+        # theorems C01_its_tier_calibration / C01_stave_tier_calibration)
+        calib = s % 7 == 3 or s % 12 == 6
         _m, per = streams.conforming(rng, nlinks=nl, nhbf=nh, stave_level=stave, fmt=fmt, version=rng.choice([7, 7, 6]), calib=calib)
         layout = rng.choice(["contiguous", "round-robin", "random-1"])
         cd, _r = c06.place(per, c06.layouts(rng, per)[layout])
@@ -118,6 +118,8 @@ def run(tier, seed):
     stave_members = 0
     calib_links = 0
     calib_members = 0
+    stave_calib_links = 0
+    stave_calib_members = 0
     for m, line, out in zip(imeta, ilines, ires):
         want = ",".join((r + p_).hex().upper() for r, p_ in m["pk"])
         npages = len(m["pk"])
@@ -126,7 +128,16 @@ def run(tier, seed):
             members += 1
         head, _, body = out.partition(" stave=")
         stave_flag, _, body = body.partition(" ")
-        cdw_flag, _, rendered = body.partition(" ")
+        cdw_flag, _, body = body.partition(" ")
+        scdw_flag, _, rendered = body.partition(" ")
+        if m["calib"] and m.get("stave"):
+            stave_calib_links += 1
+            if scdw_flag == "scdw=1":
+                stave_calib_members += 1
+            else:
+                chk.disagreements.append({"stream": "grammar-its", "description": line[:800], "verdict": out[:34],
+                                          "detail": "a generated stave-level calibration link is not accepted by the stave-level membership test for calibration runs "
+                                                    "(Spec/GrammarStaveCdwCheck.v stave_witness_cdw)"})
         if m["calib"]:
             # a calibration link: a member of the CDW-extended grammar (C01_its_tier_calibration applies); the plain and the
             # stave-level grammar have no CDW production
@@ -154,7 +165,8 @@ def run(tier, seed):
                                       "detail": "a generated conforming link is not accepted by the membership test of the word-level grammar "
                                                 "(Spec/GrammarItsCheck.v link_witness), or its rendering differs from the generated bytes"})
     chk.add_stream("grammar-its", len(ilines), idist, [{"description": ilines[0][:200] + "...", "verdict": ires[0][:11]}] if ilines else [],
-                   distribution={"links": len(ilines), "calibration_links": calib_links, "members_of_the_cdw_extended_grammar": calib_members, "members_of_the_word_level_grammar": members,
+                   distribution={"links": len(ilines), "calibration_links": calib_links, "members_of_the_cdw_extended_grammar": calib_members, "stave_level_calibration_links": stave_calib_links,
+                                 "members_of_the_stave_level_calibration_grammar": stave_calib_members, "members_of_the_word_level_grammar": members,
                                  "stave_level_links": stave_links, "members_of_the_stave_level_grammar": stave_members})
 
     # ---- every mode is silent
